@@ -45,6 +45,11 @@ type c21Case struct {
 	Ctx   []c21Write `json:"ctx,omitempty"`  // writes made (sound on) before the channel is started; must not touch what the measurement depends on
 	F0    int        `json:"f0"`             // >= 0: the channel is first started with this frequency / NR43 ...
 	Run0  int        `json:"run0,omitempty"` // ... and run for this many cycles before it is re-triggered with F
+	// Retune (needs F0 >= 0): the channel is not re-triggered; F is written into the frequency registers of the
+	// running channel instead: 1 = low byte only (NRx3; F and F0 share their high bits), 2 = low byte and NRx4
+	// without the trigger bit (channel 4: NR43 in both cases). The new period applies from the next timer reload,
+	// so the first two steps after the write are not judged.
+	Retune int `json:"retune,omitempty"`
 }
 
 var c21ROM = machine.MakeROM(0, 0, 0)
@@ -177,7 +182,20 @@ func c21Run(cas c21Case) (sig string, err error) {
 			hw.HW()
 		}
 	}
-	c21Start(hw, cas.Ch, cas.F)
+	if cas.Retune != 0 {
+		// (channel 4: the width bit stays as it was - switching a running LFSR to 7 bits while its low seven bits
+		// are zero locks it up, on hardware too, and steps are observed through changes of the register)
+		if cas.F0 < 0 || cas.Lfsr || cas.Retune < 0 || cas.Retune > 2 || (cas.Retune == 1 && cas.Ch < 4 && cas.F>>8 != cas.F0>>8) || (cas.Ch == 4 && (cas.F^cas.F0)&0x08 != 0) {
+			return "bad-case", fmt.Errorf("retune needs a running channel (and, for the low byte alone, unchanged high bits): %+v", cas)
+		}
+		lo := map[int]uint16{1: 0xff13, 2: 0xff18, 3: 0xff1d, 4: 0xff22}[cas.Ch]
+		hw.Mp.Write(lo, uint8(cas.F))
+		if cas.Retune == 2 && cas.Ch < 4 {
+			hw.Mp.Write(lo+1, uint8(cas.F>>8)&7)
+		}
+	} else {
+		c21Start(hw, cas.Ch, cas.F)
+	}
 	bit := uint8(1) << uint(cas.Ch-1)
 	if hw.Mp.Read(0xff26)&bit == 0 {
 		return "channel-not-started", fmt.Errorf("channel %d: NR52=%02x after a trigger with the DAC on", cas.Ch, hw.Mp.Read(0xff26))
@@ -201,6 +219,9 @@ func c21Run(cas c21Case) (sig string, err error) {
 		return int64(hw.A.VerifLFSR())
 	}
 	n := (int64(cas.Steps)+1)*P/4 + 16
+	if cas.Retune != 0 {
+		n += 2*int64(c21Period(cas.Ch, cas.F0))/4 + (2*P)/4 // the running period ends first
+	}
 	last := pos()
 	var evs []c21Ev
 	var s int64
@@ -220,6 +241,12 @@ func c21Run(cas c21Case) (sig string, err error) {
 	if hw.Mp.Read(0xff26)&bit == 0 {
 		return "channel-stopped", fmt.Errorf("channel %d went off during the observation although length is disabled", cas.Ch)
 	}
+	if cas.Retune != 0 {
+		if len(evs) < 4 {
+			return name + "-no-steps-after-retune", fmt.Errorf("channel %d retuned from f=%d to f=%d without a trigger: only %d waveform step(s) in %d cycles (period %d clocks)", cas.Ch, cas.F0, cas.F, len(evs), n, P)
+		}
+		evs = evs[2:]
+	}
 	if len(evs) == 0 {
 		return name + "-no-steps", fmt.Errorf("channel %d, f=%d (%#x): no waveform step in %d cycles (period %d clocks)", cas.Ch, cas.F, cas.F, n, P)
 	}
@@ -229,7 +256,11 @@ func c21Run(cas c21Case) (sig string, err error) {
 	// diagnosis: does another period explain every observation?
 	first := evs[0]
 	lastEv := evs[len(evs)-1]
-	desc := fmt.Sprintf("channel %d, f=%d (%#x): %d steps in %d cycles (first after cycle %d, last after cycle %d) do not fit one step every %d clocks with any constant phase", cas.Ch, cas.F, cas.F, s, n, first.c, lastEv.c, P)
+	how := ""
+	if cas.Retune != 0 {
+		how = fmt.Sprintf(" (running at f=%d, then retuned without a trigger, first two steps after the write not judged)", cas.F0)
+	}
+	desc := fmt.Sprintf("channel %d, f=%d (%#x)"+how+": %d steps in %d cycles (first after cycle %d, last after cycle %d) do not fit one step every %d clocks with any constant phase", cas.Ch, cas.F, cas.F, s, n, first.c, lastEv.c, P)
 	type hyp struct {
 		sig string
 		p   int64
@@ -252,6 +283,9 @@ func c21Run(cas c21Case) (sig string, err error) {
 		} else {
 			hyps = append(hyps, hyp{name + "-period-of-2047-f-plus-one", 4 * (2047 - int64(cas.F))})
 		}
+	}
+	if cas.Retune != 0 {
+		hyps = append([]hyp{{name + "-retune-ignored-until-trigger", int64(c21Period(cas.Ch, cas.F0))}}, hyps...)
 	}
 	for _, h := range hyps {
 		if h.p > 0 && h.p != P && c21Fit(evs, n, h.p) {
@@ -421,7 +455,7 @@ func (e *c21Enum) run(class string, cas c21Case, sampleIt bool) {
 
 func TestC21(t *testing.T) {
 	c := vf.New(t, "C21", "enumeration: channels 1-3 x every frequency 0-2047 (trigger on a clean power cycle, >= 8 steps observed), channel 4 x every NR43 with s <= 13 (224 values, >= 5 steps), LFSR output stream for 15-bit mode at the fastest clocks (thorough: every r, s <= 3) and 7-bit mode (quick: every r, s <= 5; thorough: every r, s <= 13); "+
-		"rapid: the same measurements in a drawn context (0-5000 cycles before power-on, up to 12 writes to registers the measurement does not depend on, including starting other channels, optionally the measured channel first running at another frequency for 0-20000 cycles before the re-trigger). "+
+		"rapid: the same measurements in a drawn context (0-5000 cycles before power-on, up to 12 writes to registers the measurement does not depend on, including starting other channels, optionally the measured channel first running at another frequency for 0-20000 cycles before the re-trigger, or retuned while running by a write to NRx3 alone / NRx3+NRx4 without a trigger / NR43). "+
 		"Non-trivial: a timing measurement that observed at least 4 steps after the first, or an LFSR stream of more than two periods. Enumerated cases are distinct by construction; rapid cases distinct by hash.")
 	defer c.Flush()
 	c.RunReplays()
@@ -518,12 +552,28 @@ func TestC21(t *testing.T) {
 		if rapid.Bool().Draw(rt, "retrigger") {
 			cas.F0 = drawF("f0")
 			cas.Run0 = rapid.IntRange(0, 20000).Draw(rt, "run0")
+			if !cas.Lfsr {
+				switch rapid.IntRange(0, 3).Draw(rt, "retune") {
+				case 0:
+					cas.Retune = 2
+				case 1:
+					cas.Retune = 1
+					if cas.Ch < 4 {
+						cas.F0 = cas.F&0x700 | cas.F0&0xff
+					}
+				}
+				if cas.Retune != 0 && cas.Ch == 4 {
+					cas.F0 = cas.F0&^0x08 | cas.F&0x08
+				}
+			}
 		}
 		class := fmt.Sprintf("context:ch%d", cas.Ch)
 		if cas.Lfsr {
 			class = "context:ch4-lfsr-7bit"
 		}
-		if cas.F0 >= 0 {
+		if cas.Retune != 0 {
+			class += "/retuned-without-trigger"
+		} else if cas.F0 >= 0 {
 			class += "/retriggered"
 		}
 		c.Case(class, vf.Hash(cas), true, func() interface{} { return cas })
